@@ -189,8 +189,10 @@ func (r *replicator) Load(ctx context.Context, entries []ipfslog.Entry) {
 		}(i)
 	}
 	r.muProcess.Unlock()
+	verifhook.Point("replicator.load_queued")
 
 	wg.Wait()
+	verifhook.Point("replicator.load_return")
 }
 
 // processOne wait for a process slot then process one element of the queue
